@@ -323,7 +323,8 @@ def snap_static(m):
     acc = [sorted([kidref(uis, body, s.owner) for s in n.signals.input.accumulate_and_run.connections], key=order_key)
            for n in body]
     run = [[kidref(uis, body, s.owner) for s in n.signals.input.run.connections] for n in body]
-    return ["mac", m.label, params, [c.label for c in m.outputs], recvs, [u is not None for u in uis], uirecv,
+    uihints = ["-" if u is None else _hint(u.inputs["user_input"].type_hint) for u in uis]
+    return ["mac", m.label, params, [c.label for c in m.outputs], recvs, [u is not None for u in uis], uihints, uirecv,
             bodies, manual, [start, acc, run]]
 
 
@@ -679,7 +680,7 @@ def gen_def(rng, depth, top=True):
             sub = gen_def(rng, depth - 1, top=False)
             need = len([p for p in sub["ps"] if p[1] is None])
             na = rng.choice([need, len(sub["ps"]), len(sub["ps"]), rng.randint(need, len(sub["ps"]))])
-            if rng.random() < 0.04 and need > 0:
+            if rng.random() < 0.02 and need > 0:
                 na = need - 1                               # malformed: a required argument is missing
             body.append([label, sub, [pick_arg(j) for _ in range(na)]])
         else:
@@ -699,7 +700,7 @@ def gen_def(rng, depth, top=True):
         if a in [r[1] for r in rets] and rng.random() < 0.75:
             continue                                        # duplicates are kept only rarely
         rets.append([rng.choice(["o", "out", "r"]) + str(o), a])
-    if rets and rng.random() < 0.03:
+    if len(rets) > 1 and rng.random() < (0.02 if top else 0.005):
         rets[-1][0] = rets[0][0]                            # malformed: duplicate labels
     d = {"ps": ps, "body": body, "rets": rets, "fl": ["auto"], "scrape": False,
          "self": rng.choice(["self", "self", "macro", "wf"]), "kw": rng.random() < 0.5}
@@ -710,6 +711,7 @@ def gen_def(rng, depth, top=True):
         for r, lab in zip(rets, derived):
             r[0] = lab
     r = rng.random()
+    bad_p = 0.03 if top else 0.008                          # malformed flows stay rare
     if nb >= 2 and r < 0.3:
         order = list(range(nb))
         if rng.random() < 0.4:                              # another order compatible with the data
@@ -720,9 +722,9 @@ def gen_def(rng, depth, top=True):
                 order.append(j)
                 left.remove(j)
         d["fl"] = ["chain", order]
-    elif nb >= 1 and r < 0.34:
+    elif nb >= 1 and 0.3 <= r < 0.3 + bad_p:
         d["fl"] = ["chain", [0]] if rng.random() < 0.5 else ["bad", False]
-    elif nb >= 2 and r < 0.37:
+    elif nb >= 2 and 0.3 + bad_p <= r < 0.3 + 2 * bad_p:
         d["fl"] = ["bad", True]
     return d
 
@@ -799,10 +801,10 @@ def generate(ctx):
     cases, seen = [], set()
     n = ctx.n(700, 6000)
     while len(cases) < n:
-        depth = rng.choice([0, 1, 1, 2, 2, 3])
+        depth = rng.choice([0, 1, 1, 2, 2])             # at most three levels of macros
         d = gen_def(rng, depth)
         ops = gen_ops(rng, d)
-        if rng.random() < 0.35:                              # macro-level histories only
+        if rng.random() < 0.45:                              # macro-level histories only
             ops = [o for o in ops if o[0] == "run" or o[1] == []]
         k = json.dumps([d, ops], sort_keys=True)
         if k in seen:
@@ -812,7 +814,19 @@ def generate(ctx):
     return cases
 
 
+def _prune_gen(max_age_s=2 * 3600):
+    """generated modules are scratch: drop those no run can still be using"""
+    try:
+        now = time.time()
+        for f in GEN.glob("*.py"):
+            if now - f.stat().st_mtime > max_age_s:
+                f.unlink(missing_ok=True)
+    except OSError:
+        pass
+
+
 def corpus(ctx):
+    _prune_gen()
     out = []
     for p in sorted((lib.VERIF / "corpus" / PROP).glob("*.json")):
         out.extend(json.loads(p.read_text()))
